@@ -137,7 +137,7 @@ Theorem C08_http_scrape_end_to_end : forall parse_ip split_host split_ok (o : Ht
       bdecode fuel (bencode v') = Ok v' [] /\
       exists fd, get k_files v' = Some (BDict fd) /\
         forall ih, In ih ihs ->
-          exists pd, lookup ih fd = Some pd /\
+          exists pd, Bencode.lookup ih fd = Some pd /\
                 get k_complete pd = Some (BInt (st_scrape spec_if ih (v6_of af) sp).1) /\
                 get k_incomplete pd = Some (BInt (st_scrape spec_if ih (v6_of af) sp).2).
 Proof. exact http_scrape_end_to_end. Qed.
